@@ -36,54 +36,43 @@ example : splitUniformIter 2 1 1 0 6 false [((1 : Int), (10 : Int)), (2, 20), (5
     some [⟨0, [(1, 10), (2, 20)], 0, 2⟩, ⟨2, [(1, 10), (2, 20)], 2, 4⟩, ⟨4, [(5, 50)], 4, 6⟩] := by
   decide
 
-/-- **Non-uniform split** — partial: proved for ascending boundary lists all of whose boundaries lie
-    below the active end.  (With a boundary at/after the active end the code raises `ValueError`
-    for an element in that boundary's pre-halo, see `nonuniform_crash_witness`.)  Partition `i` is
-    `[S[i], S[i+1])`, the last one unbounded; elements below the first boundary belong to no partition. -/
-theorem nonuniform_spec_partial (S : List Int) (pre post as ae : Int) (rel : Bool) (elems : Fib Int π)
-    (hS : S.Pairwise (· < ·)) (hpre : 0 ≤ pre) (hpost : 0 ≤ post) (hsorted : Sorted elems)
-    (hin : ∀ s ∈ S, s < ae) :
+/-- **Non-uniform split.**  For every ascending boundary list and ascending fiber (any halos, any
+    active range) the scan with its `search_start` shortcut returns: partition `i` is `[S[i], S[i+1])`,
+    the last one unbounded; it exists only if it meets the active range and holds the presented
+    elements of its halo-extended interval inside the halo-extended active range; elements below the
+    first boundary — and, since /repo fix 9ea13c4, elements reaching only partitions that start
+    at/after the active end — belong to no partition. -/
+theorem nonuniform_spec (S : List Int) (pre post as ae : Int) (rel : Bool) (elems : Fib Int π)
+    (hS : S.Pairwise (· < ·)) (hsorted : Sorted elems) :
     splitNonUniformIter S pre post as ae rel elems = some (nuSpec S pre post as ae rel elems) :=
   splitNonUniformIter_eq S pre post as ae hS rel elems hsorted
-    (fun y _ hw h0 => cover_of_lt_ae S pre post as ae hS hin hpre hpost y.1 hw h0)
 
 example : splitNonUniformIter [0, 3] 1 0 0 6 true [((1 : Int), (10 : Int)), (2, 20), (5, 50)] =
     some [⟨0, [(1, 10), (2, 20)], 0, 3⟩, ⟨3, [(-1, 20), (2, 50)], 3, 6⟩] := by
   decide
 
-/-- the excluded class is real: `Fiber([3],[5]).splitNonUniform([4], pre_halo=1)` (active range
-    `[0,4)`) raises in the model exactly as in the implementation -/
-theorem nonuniform_crash_witness :
-    splitNonUniformIter [4] 1 0 0 4 false [((3 : Int), (5 : Int))] = none := by decide
-
-/-- the same statement under the weakest hypothesis the proof needs: every element inside the
-    window that reaches the first boundary's pre-halo belongs to some partition -/
-theorem nonuniform_spec_of_cover (S : List Int) (pre post as ae : Int) (rel : Bool) (elems : Fib Int π)
-    (hS : S.Pairwise (· < ·)) (hsorted : Sorted elems)
-    (hcover : ∀ y ∈ elems, inWindow as ae pre post y.1 = true →
-      (∃ s0, S[0]? = some s0 ∧ s0 - pre ≤ y.1) → ∃ i, nuMemb S pre post as ae i y.1 = true) :
-    splitNonUniformIter S pre post as ae rel elems = some (nuSpec S pre post as ae rel elems) :=
-  splitNonUniformIter_eq S pre post as ae hS rel elems hsorted hcover
+/-- the former crash `Fiber([3],[5]).splitNonUniform([4], pre_halo=1)` (active range `[0,4)`): no partition -/
+example : splitNonUniformIter [4] 1 0 0 4 false [((3 : Int), (5 : Int))] = some [] := by decide
 
 /-- **splitEqual**: never raises; it is the non-uniform split at the boundaries `active start,
     coordinate of every step-th active element` -/
 theorem equal_spec (step pre post as ae : Int) (rel : Bool) (elems : Fib Int π)
-    (hact : as < ae) (hpre : 0 ≤ pre) (hpost : 0 ≤ post) (hsorted : Sorted elems) :
+    (hact : as < ae) (hsorted : Sorted elems) :
     splitEqualIter step pre post as ae rel elems =
       some (nuSpec (equalBounds step as (iterActive as ae elems)) pre post as ae rel elems) := by
   obtain ⟨h1, h2⟩ := bounds_ok as ae elems hsorted hact _ (equalBounds_sublist step as (iterActive as ae elems))
-  exact nonuniform_spec_partial _ pre post as ae rel elems h1 hpre hpost hsorted h2
+  exact nonuniform_spec _ pre post as ae rel elems h1 hsorted
 
 example : splitEqualIter 2 0 0 0 8 false [((1 : Int), (10 : Int)), (2, 20), (5, 50)] =
     some [⟨0, [(1, 10), (2, 20)], 0, 5⟩, ⟨5, [(5, 50)], 5, 8⟩] := by decide
 
 /-- **splitUnEqual**: never raises; non-uniform split at the boundaries selected by the sizes -/
 theorem unequal_spec (sizes : List Int) (pre post as ae : Int) (rel : Bool) (elems : Fib Int π)
-    (hact : as < ae) (hpre : 0 ≤ pre) (hpost : 0 ≤ post) (hsorted : Sorted elems) :
+    (hact : as < ae) (hsorted : Sorted elems) :
     splitUnEqualIter sizes pre post as ae rel elems =
       some (nuSpec (unequalBounds sizes as (iterActive as ae elems)) pre post as ae rel elems) := by
   obtain ⟨h1, h2⟩ := bounds_ok as ae elems hsorted hact _ (unequalBounds_sublist sizes as (iterActive as ae elems))
-  exact nonuniform_spec_partial _ pre post as ae rel elems h1 hpre hpost hsorted h2
+  exact nonuniform_spec _ pre post as ae rel elems h1 hsorted
 
 example : splitUnEqualIter [1] 0 0 0 8 false [((1 : Int), (10 : Int)), (2, 20), (5, 50)] =
     some [⟨0, [(1, 10)], 0, 2⟩, ⟨2, [(2, 20), (5, 50)], 2, 8⟩] := by decide
@@ -386,7 +375,7 @@ theorem equal_chunks (step as ae : Int) (rel : Bool) (elems : Fib Int π)
     splitEqualIter step 0 0 as ae rel elems =
       some (chunkParts as ae rel (chunksOf step.toNat
         (elems.filter (fun e => decide (as ≤ e.1) && decide (e.1 < ae))))) := by
-  rw [equal_spec step 0 0 as ae rel elems hact (Int.le_refl _) (Int.le_refl _) hsorted,
+  rw [equal_spec step 0 0 as ae rel elems hact hsorted,
     iterActive_eq_filter as ae elems hsorted, equalBounds_eq, eqBounds_chunks step as hstep _ 0 (by simp)]
   have hn : step.toNat ≠ 0 := by omega
   simp only [if_true]
@@ -408,7 +397,7 @@ theorem unequal_chunks_partial (sizes : List Int) (as ae : Int) (rel : Bool) (el
     splitUnEqualIter sizes 0 0 as ae rel elems =
       some (chunkParts as ae rel (takeChunks (sizes.map Int.toNat)
         (elems.filter (fun e => decide (as ≤ e.1) && decide (e.1 < ae))))) := by
-  rw [unequal_spec sizes 0 0 as ae rel elems hact (Int.le_refl _) (Int.le_refl _) hsorted,
+  rw [unequal_spec sizes 0 0 as ae rel elems hact hsorted,
     iterActive_eq_filter as ae elems hsorted, unequalBounds_chunks sizes hne hpos as]
   rw [nuSpec_chunks as ae rel elems hsorted _ as
     (takeChunks_nonempty _ _ (by
@@ -473,12 +462,13 @@ example : splitUniformIter 2 1 1 0 9 true exF = some (uSpec 2 1 1 0 9 true exF) 
   uniform_spec 2 1 1 0 9 true exF (by decide) (by decide) (by decide) (by decide) exF_sorted
 example : (uSpec 2 1 1 0 9 true exF).length = 5 := by decide
 
-example : splitNonUniformIter [0, 3, 7] 1 2 0 9 false exF = some (nuSpec [0, 3, 7] 1 2 0 9 false exF) :=
-  nonuniform_spec_partial [0, 3, 7] 1 2 0 9 false exF (by decide) (by decide) (by decide) exF_sorted (by decide)
+example : splitNonUniformIter [0, 3, 12] 1 2 0 9 false exF = some (nuSpec [0, 3, 12] 1 2 0 9 false exF) :=
+  nonuniform_spec [0, 3, 12] 1 2 0 9 false exF (by decide) exF_sorted
+example : (nuSpec [0, 3, 12] 1 2 0 9 false exF).length = 2 := by decide
 example : (nuSpec [0, 3, 7] 1 2 0 9 false exF).length = 3 := by decide
 
-example := equal_spec 2 1 0 0 9 false exF (by decide) (by decide) (by decide) exF_sorted
-example := unequal_spec [1, 2] 0 1 0 9 false exF (by decide) (by decide) (by decide) exF_sorted
+example := equal_spec 2 1 0 0 9 false exF (by decide) exF_sorted
+example := unequal_spec [1, 2] 0 1 0 9 false exF (by decide) exF_sorted
 example := equal_chunks 2 0 9 false exF (by decide) (by decide) exF_sorted
 example := unequal_chunks_partial [1, 2] 0 9 false exF (by decide) (by decide) (by decide) exF_sorted
 
